@@ -46,12 +46,16 @@ func main() {
 		}
 		os.Exit(runParent(os.Args[2], os.Args[3]))
 	case "worker":
-		os.Exit(runWorker(os.Args[2:]))
+		rc := runWorker(os.Args[2:])
+		core.RunAtExit()
+		os.Exit(rc)
 	case "replay":
 		if len(os.Args) < 3 {
 			usage()
 		}
-		os.Exit(runReplay(os.Args[2], true))
+		rc := runReplay(os.Args[2], true)
+		core.RunAtExit()
+		os.Exit(rc)
 	case "list":
 		for _, id := range core.IDs() {
 			fmt.Println(id)
@@ -454,6 +458,12 @@ func runParent(prop, tier string) int {
 					}
 				}
 				err := cmd.Wait()
+				// a worker that died could not remove its scratch directory
+				for _, base := range []string{"/dev/shm", "/var/tmp", os.Getenv("VERIF_SCRATCH")} {
+					if base != "" {
+						_ = os.RemoveAll(filepath.Join(base, fmt.Sprintf("dsim.%d", cmd.Process.Pid)))
+					}
+				}
 				if gotDone && !hang && err == nil {
 					return
 				}
